@@ -1,1 +1,1225 @@
-fn main(){}
+//! regsim — seeded registry-history simulator for C15.
+//!
+//!   regsim run  --seed S --start A --count N --out FILE [--viol-dir DIR] [--samples K]
+//!   regsim exec --file REPLAY.json [--verbose]
+//!   regsim gen  --seed S --index I
+//!
+//! A history is a sequence of register / deregister / register-builtins /
+//! new-runtime / get / call operations over up to three runtimes.  After every
+//! operation the real `Runtime` is compared with a reference model (an
+//! ordered map per runtime plus a tiny evaluator for the call expressions the
+//! generator emits).  Registered functions are *recording functions*: they
+//! log which function ran and with what argument vector.
+
+use jmespath::ast::Ast;
+use jmespath::functions::{ArgumentType, CustomFunction, Function, Signature};
+use jmespath::{Context, ErrorReason, JmespathError, Rcvar, Runtime, RuntimeError, Variable};
+use serde_json::{json, Value};
+use simcore::{mix, Hasher64, Rng};
+use std::collections::{BTreeMap, BTreeSet};
+use std::io::Write;
+use std::panic::{catch_unwind, AssertUnwindSafe};
+use std::sync::atomic::{AtomicU32, Ordering::Relaxed};
+use std::sync::{Arc, Mutex};
+
+// ------------------------------------------------------------------ vocabulary
+
+const N_RT: usize = 3;
+/// names an expression can call
+const CALL_NAMES: &[&str] = &[
+    "abs", "length", "not_null", "map", "type", "to_array", "f0", "g1", "Abs", "abs_", "ABS", "h",
+];
+/// names only ever looked up / registered, never called (not valid identifiers or irrelevant)
+const ODD_NAMES: &[&str] = &[" abs", "abs ", "", "keys", "nosuch", "LENGTH", "f0 ", "ab"];
+const BUILTINS: &[&str] = &[
+    "abs", "avg", "ceil", "contains", "ends_with", "floor", "join", "keys", "length", "map", "min", "max",
+    "max_by", "min_by", "merge", "not_null", "reverse", "sort", "sort_by", "starts_with", "sum", "to_array",
+    "to_number", "to_string", "type", "values",
+];
+
+#[derive(Clone, Debug, PartialEq)]
+enum SigT {
+    Any,
+    Number,
+    String,
+    Expref,
+    Array,
+    ArrayNumber,
+    NumOrStr,
+    Object,
+    Bool,
+    Null,
+}
+
+const SIGTS: &[SigT] = &[
+    SigT::Any,
+    SigT::Number,
+    SigT::String,
+    SigT::Expref,
+    SigT::Array,
+    SigT::ArrayNumber,
+    SigT::NumOrStr,
+    SigT::Object,
+    SigT::Bool,
+    SigT::Null,
+];
+
+impl SigT {
+    fn name(&self) -> &'static str {
+        match self {
+            SigT::Any => "any",
+            SigT::Number => "number",
+            SigT::String => "string",
+            SigT::Expref => "expref",
+            SigT::Array => "array",
+            SigT::ArrayNumber => "array[number]",
+            SigT::NumOrStr => "number|string",
+            SigT::Object => "object",
+            SigT::Bool => "boolean",
+            SigT::Null => "null",
+        }
+    }
+    fn from_name(s: &str) -> Option<SigT> {
+        SIGTS.iter().find(|t| t.name() == s).cloned()
+    }
+    fn to_arg(&self) -> ArgumentType {
+        match self {
+            SigT::Any => ArgumentType::Any,
+            SigT::Number => ArgumentType::Number,
+            SigT::String => ArgumentType::String,
+            SigT::Expref => ArgumentType::Expref,
+            SigT::Array => ArgumentType::Array,
+            SigT::ArrayNumber => ArgumentType::TypedArray(Box::new(ArgumentType::Number)),
+            SigT::NumOrStr => ArgumentType::Union(vec![ArgumentType::Number, ArgumentType::String]),
+            SigT::Object => ArgumentType::Object,
+            SigT::Bool => ArgumentType::Bool,
+            SigT::Null => ArgumentType::Null,
+        }
+    }
+    /// The reference model's own notion of "argument satisfies type".
+    fn accepts(&self, v: &Variable) -> bool {
+        match self {
+            SigT::Any => true,
+            SigT::Number => matches!(v, Variable::Number(_)),
+            SigT::String => matches!(v, Variable::String(_)),
+            SigT::Expref => matches!(v, Variable::Expref(_)),
+            SigT::Array => matches!(v, Variable::Array(_)),
+            SigT::ArrayNumber => match v {
+                Variable::Array(a) => a.iter().all(|x| matches!(**x, Variable::Number(_))),
+                _ => false,
+            },
+            SigT::NumOrStr => matches!(v, Variable::Number(_) | Variable::String(_)),
+            SigT::Object => matches!(v, Variable::Object(_)),
+            SigT::Bool => matches!(v, Variable::Bool(_)),
+            SigT::Null => matches!(v, Variable::Null),
+        }
+    }
+}
+
+#[derive(Clone, Debug, PartialEq)]
+struct Sig {
+    inputs: Vec<SigT>,
+    variadic: Option<SigT>,
+}
+
+/// A recording function to register.
+#[derive(Clone, Debug, PartialEq)]
+struct FnSpec {
+    /// unique instance id within the history
+    id: u32,
+    /// None: bare closure; Some: CustomFunction with this signature
+    sig: Option<Sig>,
+    /// the n-th invocation (1-based) of this instance returns an injected error
+    fail_on: Option<u32>,
+}
+
+#[derive(Clone, Debug, PartialEq)]
+enum Op {
+    Register { rt: usize, name: String, f: FnSpec },
+    Deregister { rt: usize, name: String },
+    RegisterBuiltins { rt: usize },
+    NewRuntime { rt: usize },
+    Get { rt: usize, name: String },
+    Call { rt: usize, expr: String, doc: String },
+}
+
+impl Op {
+    fn kind(&self) -> &'static str {
+        match self {
+            Op::Register { .. } => "register",
+            Op::Deregister { .. } => "deregister",
+            Op::RegisterBuiltins { .. } => "register_builtins",
+            Op::NewRuntime { .. } => "new_runtime",
+            Op::Get { .. } => "get",
+            Op::Call { .. } => "call",
+        }
+    }
+}
+
+fn sig_json(s: &Option<Sig>) -> Value {
+    match s {
+        None => Value::Null,
+        Some(s) => json!({
+            "inputs": s.inputs.iter().map(|t| t.name()).collect::<Vec<_>>(),
+            "variadic": s.variadic.as_ref().map(|t| t.name()),
+        }),
+    }
+}
+
+fn op_to_json(op: &Op) -> Value {
+    match op {
+        Op::Register { rt, name, f } => json!({"op":"register","rt":rt,"name":name,
+            "fn":{"id":f.id,"signature":sig_json(&f.sig),"fail_on":f.fail_on}}),
+        Op::Deregister { rt, name } => json!({"op":"deregister","rt":rt,"name":name}),
+        Op::RegisterBuiltins { rt } => json!({"op":"register_builtins","rt":rt}),
+        Op::NewRuntime { rt } => json!({"op":"new_runtime","rt":rt}),
+        Op::Get { rt, name } => json!({"op":"get","rt":rt,"name":name}),
+        Op::Call { rt, expr, doc } => json!({"op":"call","rt":rt,"expr":expr,"doc":doc}),
+    }
+}
+
+fn op_from_json(v: &Value) -> Result<Op, String> {
+    let s = |k: &str| -> Result<String, String> {
+        v.get(k)
+            .and_then(|x| x.as_str())
+            .map(|x| x.to_string())
+            .ok_or_else(|| format!("missing {} in {}", k, v))
+    };
+    let rt = v.get("rt").and_then(|x| x.as_u64()).unwrap_or(0) as usize % N_RT;
+    Ok(match s("op")?.as_str() {
+        "register" => {
+            let f = v.get("fn").ok_or("missing fn")?;
+            let sig = match f.get("signature") {
+                Some(sv) if sv.is_object() => Some(Sig {
+                    inputs: sv
+                        .get("inputs")
+                        .and_then(|x| x.as_array())
+                        .map(|a| {
+                            a.iter()
+                                .filter_map(|t| t.as_str().and_then(SigT::from_name))
+                                .collect()
+                        })
+                        .unwrap_or_default(),
+                    variadic: sv.get("variadic").and_then(|x| x.as_str()).and_then(SigT::from_name),
+                }),
+                _ => None,
+            };
+            Op::Register {
+                rt,
+                name: s("name")?,
+                f: FnSpec {
+                    id: f.get("id").and_then(|x| x.as_u64()).unwrap_or(0) as u32,
+                    sig,
+                    fail_on: f.get("fail_on").and_then(|x| x.as_u64()).map(|x| x as u32),
+                },
+            }
+        }
+        "deregister" => Op::Deregister { rt, name: s("name")? },
+        "register_builtins" => Op::RegisterBuiltins { rt },
+        "new_runtime" => Op::NewRuntime { rt },
+        "get" => Op::Get { rt, name: s("name")? },
+        "call" => Op::Call {
+            rt,
+            expr: s("expr")?,
+            doc: s("doc")?,
+        },
+        o => return Err(format!("unknown op {}", o)),
+    })
+}
+
+// ------------------------------------------------------------------ recording functions
+
+/// One invocation observed inside a recording function.
+#[derive(Clone, Debug, PartialEq, Eq, PartialOrd, Ord)]
+struct Rec {
+    id: u32,
+    args: Vec<String>,
+}
+
+type Log = Arc<Mutex<Vec<Rec>>>;
+
+fn render_arg(v: &Rcvar) -> String {
+    format!("{:?}", v)
+}
+
+/// What a recording function returns: ["F<id>", arg0', arg1', ...] where an
+/// expref argument is shown as the string "&" followed by its tree.
+fn recorded_value(id: u32, args: &[Rcvar]) -> Rcvar {
+    let mut out = vec![Rcvar::new(Variable::String(format!("F{}", id)))];
+    for a in args {
+        out.push(match &**a {
+            Variable::Expref(ast) => Rcvar::new(Variable::String(format!("&{:?}", ast))),
+            _ => a.clone(),
+        });
+    }
+    Rcvar::new(Variable::Array(out))
+}
+
+fn injected_error(id: u32, n: u32) -> JmespathError {
+    JmespathError::new(
+        "injected",
+        1,
+        ErrorReason::Parse(format!("injected failure of F{} at its invocation {}", id, n)),
+    )
+}
+
+fn make_fn(spec: &FnSpec, log: &Log) -> Box<dyn Function> {
+    let id = spec.id;
+    let fail_on = spec.fail_on;
+    let log = log.clone();
+    let count = AtomicU32::new(0);
+    let body = move |args: &[Rcvar], _ctx: &mut Context<'_>| -> Result<Rcvar, JmespathError> {
+        let n = count.fetch_add(1, Relaxed) + 1;
+        log.lock().unwrap().push(Rec {
+            id,
+            args: args.iter().map(render_arg).collect(),
+        });
+        if fail_on == Some(n) {
+            return Err(injected_error(id, n));
+        }
+        Ok(recorded_value(id, args))
+    };
+    match &spec.sig {
+        None => Box::new(body),
+        Some(sig) => Box::new(CustomFunction::new(
+            Signature::new(
+                sig.inputs.iter().map(|t| t.to_arg()).collect(),
+                sig.variadic.as_ref().map(|t| t.to_arg()),
+            ),
+            Box::new(body),
+        )),
+    }
+}
+
+// ------------------------------------------------------------------ reference model
+
+#[derive(Clone, Debug, PartialEq)]
+enum Binding {
+    Builtin(&'static str),
+    Custom { spec: FnSpec, calls: u32 },
+}
+
+#[derive(Clone, Debug, Default)]
+struct ModelRt {
+    map: BTreeMap<String, Binding>,
+}
+
+#[derive(Clone, Debug, PartialEq, Eq)]
+enum ErrClass {
+    Unknown(String),
+    NotEnough,
+    TooMany,
+    InvalidType,
+    Injected(u32),
+    /// the model does not cover this (argument form outside the reference evaluator)
+    Unsupported(String),
+}
+
+fn class_of(e: &JmespathError) -> ErrClass {
+    match &e.reason {
+        ErrorReason::Runtime(RuntimeError::UnknownFunction(n)) => ErrClass::Unknown(n.clone()),
+        ErrorReason::Runtime(RuntimeError::NotEnoughArguments { .. }) => ErrClass::NotEnough,
+        ErrorReason::Runtime(RuntimeError::TooManyArguments { .. }) => ErrClass::TooMany,
+        ErrorReason::Runtime(RuntimeError::InvalidType { .. }) => ErrClass::InvalidType,
+        ErrorReason::Parse(m) if m.starts_with("injected failure of F") => {
+            let id = m["injected failure of F".len()..]
+                .split(' ')
+                .next()
+                .and_then(|x| x.parse().ok())
+                .unwrap_or(u32::MAX);
+            ErrClass::Injected(id)
+        }
+        other => ErrClass::Unsupported(format!("{:?}", other)),
+    }
+}
+
+fn null() -> Rcvar {
+    Rcvar::new(Variable::Null)
+}
+
+fn check_sig(inputs: &[SigT], variadic: &Option<SigT>, args: &[Rcvar]) -> Result<(), ErrClass> {
+    if variadic.is_some() {
+        if args.len() < inputs.len() {
+            return Err(ErrClass::NotEnough);
+        }
+    } else if args.len() < inputs.len() {
+        return Err(ErrClass::NotEnough);
+    } else if args.len() > inputs.len() {
+        return Err(ErrClass::TooMany);
+    }
+    for (i, a) in args.iter().enumerate() {
+        let t = inputs.get(i).or(variadic.as_ref()).unwrap();
+        if !t.accepts(a) {
+            return Err(ErrClass::InvalidType);
+        }
+    }
+    Ok(())
+}
+
+/// Mini reference semantics of the few built-ins the generator calls.
+fn model_builtin(name: &str, args: &[Rcvar], m: &mut ModelRt, log: &mut Vec<Rec>) -> Result<Rcvar, ErrClass> {
+    use SigT::*;
+    match name {
+        "abs" => {
+            check_sig(&[Number], &None, args)?;
+            let f = match &*args[0] {
+                Variable::Number(n) => n.as_f64().unwrap_or(0.0),
+                _ => 0.0,
+            };
+            Ok(Rcvar::new(Variable::Number(
+                serde_json::Number::from_f64(f.abs()).ok_or(ErrClass::Unsupported("nan".into()))?,
+            )))
+        }
+        "length" => {
+            if args.len() < 1 {
+                return Err(ErrClass::NotEnough);
+            }
+            if args.len() > 1 {
+                return Err(ErrClass::TooMany);
+            }
+            let n = match &*args[0] {
+                Variable::Array(a) => a.len(),
+                Variable::Object(o) => o.len(),
+                Variable::String(s) => s.chars().count(),
+                _ => return Err(ErrClass::InvalidType),
+            };
+            Ok(Rcvar::new(Variable::Number(serde_json::Number::from(n))))
+        }
+        "not_null" => {
+            if args.is_empty() {
+                return Err(ErrClass::NotEnough);
+            }
+            Ok(args
+                .iter()
+                .find(|a| !matches!(***a, Variable::Null))
+                .cloned()
+                .unwrap_or_else(null))
+        }
+        "type" => {
+            check_sig(&[Any], &None, args)?;
+            let t = match &*args[0] {
+                Variable::Null => "null",
+                Variable::String(_) => "string",
+                Variable::Number(_) => "number",
+                Variable::Bool(_) => "boolean",
+                Variable::Array(_) => "array",
+                Variable::Object(_) => "object",
+                Variable::Expref(_) => "expref",
+            };
+            Ok(Rcvar::new(Variable::String(t.to_string())))
+        }
+        "to_array" => {
+            check_sig(&[Any], &None, args)?;
+            Ok(match &*args[0] {
+                Variable::Array(_) => args[0].clone(),
+                _ => Rcvar::new(Variable::Array(vec![args[0].clone()])),
+            })
+        }
+        "map" => {
+            check_sig(&[Expref, Array], &None, args)?;
+            let ast = match &*args[0] {
+                Variable::Expref(a) => a.clone(),
+                _ => unreachable!(),
+            };
+            let mut out = vec![];
+            if let Variable::Array(a) = &*args[1] {
+                for el in a {
+                    out.push(model_eval(m, &ast, el, log)?);
+                }
+            }
+            Ok(Rcvar::new(Variable::Array(out)))
+        }
+        other => Err(ErrClass::Unsupported(format!("builtin {}", other))),
+    }
+}
+
+/// Reference evaluator over the parsed tree, for the node kinds the generator emits.
+fn model_eval(m: &mut ModelRt, node: &Ast, data: &Rcvar, log: &mut Vec<Rec>) -> Result<Rcvar, ErrClass> {
+    match node {
+        Ast::Identity { .. } => Ok(data.clone()),
+        Ast::Literal { value, .. } => Ok(value.clone()),
+        Ast::Field { name, .. } => Ok(match &**data {
+            Variable::Object(o) => o.get(name).cloned().unwrap_or_else(null),
+            _ => null(),
+        }),
+        Ast::Subexpr { lhs, rhs, .. } => {
+            let l = model_eval(m, lhs, data, log)?;
+            model_eval(m, rhs, &l, log)
+        }
+        Ast::Index { idx, .. } => Ok(match &**data {
+            Variable::Array(a) if *idx >= 0 => a.get(*idx as usize).cloned().unwrap_or_else(null),
+            _ => null(),
+        }),
+        Ast::MultiList { elements, .. } => {
+            if matches!(**data, Variable::Null) {
+                return Ok(null());
+            }
+            let mut out = vec![];
+            for e in elements {
+                out.push(model_eval(m, e, data, log)?);
+            }
+            Ok(Rcvar::new(Variable::Array(out)))
+        }
+        Ast::Projection { lhs, rhs, .. } => {
+            let l = model_eval(m, lhs, data, log)?;
+            match &*l {
+                Variable::Array(a) => {
+                    let mut out = vec![];
+                    for el in a {
+                        let v = model_eval(m, rhs, el, log)?;
+                        if !matches!(*v, Variable::Null) {
+                            out.push(v);
+                        }
+                    }
+                    Ok(Rcvar::new(Variable::Array(out)))
+                }
+                _ => Ok(null()),
+            }
+        }
+        Ast::Expref { ast, .. } => Ok(Rcvar::new(Variable::Expref((**ast).clone()))),
+        Ast::Function { name, args, .. } => {
+            let mut vals = vec![];
+            for a in args {
+                vals.push(model_eval(m, a, data, log)?);
+            }
+            match m.map.get(name).cloned() {
+                None => Err(ErrClass::Unknown(name.clone())),
+                Some(Binding::Builtin(b)) => model_builtin(b, &vals, m, log),
+                Some(Binding::Custom { spec, .. }) => {
+                    if let Some(sig) = &spec.sig {
+                        check_sig(&sig.inputs, &sig.variadic, &vals)?;
+                    }
+                    let n = match m.map.get_mut(name) {
+                        Some(Binding::Custom { calls, .. }) => {
+                            *calls += 1;
+                            *calls
+                        }
+                        _ => unreachable!(),
+                    };
+                    log.push(Rec {
+                        id: spec.id,
+                        args: vals.iter().map(render_arg).collect(),
+                    });
+                    if spec.fail_on == Some(n) {
+                        return Err(ErrClass::Injected(spec.id));
+                    }
+                    Ok(recorded_value(spec.id, &vals))
+                }
+            }
+        }
+        other => Err(ErrClass::Unsupported(format!("node {:?}", other).chars().take(60).collect())),
+    }
+}
+
+fn unknown_names(node: &Ast, m: &ModelRt, out: &mut BTreeSet<String>) {
+    match node {
+        Ast::Function { name, args, .. } => {
+            if !m.map.contains_key(name) {
+                out.insert(name.clone());
+            }
+            for a in args {
+                unknown_names(a, m, out);
+            }
+        }
+        Ast::Subexpr { lhs, rhs, .. } | Ast::Projection { lhs, rhs, .. } => {
+            unknown_names(lhs, m, out);
+            unknown_names(rhs, m, out);
+        }
+        Ast::MultiList { elements, .. } => {
+            for e in elements {
+                unknown_names(e, m, out);
+            }
+        }
+        Ast::Expref { ast, .. } => unknown_names(ast, m, out),
+        _ => {}
+    }
+}
+
+// ------------------------------------------------------------------ generator
+
+fn gen_sig(r: &mut Rng) -> Sig {
+    let n = r.below(3);
+    let pool = [
+        SigT::Any,
+        SigT::Any,
+        SigT::Number,
+        SigT::String,
+        SigT::Expref,
+        SigT::Array,
+        SigT::ArrayNumber,
+        SigT::NumOrStr,
+        SigT::Object,
+    ];
+    Sig {
+        inputs: (0..n).map(|_| r.pick(&pool).clone()).collect(),
+        variadic: if r.chance(1, 3) { Some(r.pick(&pool).clone()) } else { None },
+    }
+}
+
+const DOCS: &[&str] = &[
+    r#"{"a": 1, "b": "x", "xs": [{"k": 1, "n": "p"}, {"k": -2, "n": "q"}, {"k": 3}], "ys": [3, -1, 2], "o": {"z": true}, "e": null}"#,
+    r#"{"a": -7.5, "b": [1, 2], "xs": [], "ys": ["s", 1], "o": {}, "e": null}"#,
+    r#"{"a": "str", "b": null, "xs": [{"k": "t", "n": 2}], "ys": [], "o": {"z": [1]}}"#,
+    r#"[1, 2, 3]"#,
+    r#"null"#,
+];
+
+fn gen_arg(r: &mut Rng, depth: u32, names: &[&str]) -> String {
+    match r.below(13) {
+        0 => "@".into(),
+        1 | 2 => (*r.pick(&["a", "b", "ys", "o", "e", "xs", "k", "n", "missing"])).to_string(),
+        3 => (*r.pick(&["`1`", "`-3`", "`\"lit\"`", "`[1, 2]`", "`null`", "`{\"q\": 1}`", "'raw'", "`2.5`"])).to_string(),
+        4 => format!("&{}", r.pick(&["a", "k", "@", "n", "o.z"])),
+        5 if depth > 0 => format!("&{}", gen_call(r, depth - 1, names)),
+        6 | 7 if depth > 0 => gen_call(r, depth - 1, names),
+        8 => "ys[0]".into(),
+        9 => "o.z".into(),
+        10 => "[a, b]".into(),
+        _ => (*r.pick(&["a", "ys", "xs"])).to_string(),
+    }
+}
+
+fn gen_call(r: &mut Rng, depth: u32, names: &[&str]) -> String {
+    let name = *r.pick(names);
+    // canonical, well-typed argument vectors for built-in names (so that when the
+    // built-in answers, the answer is informative); sometimes arbitrary ones
+    if r.chance(1, 2) {
+        match name {
+            "abs" => return format!("abs({})", r.pick(&["`-3`", "a", "ys[1]", "k"])),
+            "length" => return format!("length({})", r.pick(&["ys", "b", "o", "xs", "`\"four\"`"])),
+            "not_null" => return format!("not_null(e, {})", gen_arg(r, 0, names)),
+            "map" => return format!("map(&{}, {})", r.pick(&["k", "@", "n"]), r.pick(&["xs", "ys"])),
+            "type" | "to_array" => return format!("{}({})", name, gen_arg(r, 0, names)),
+            _ => {}
+        }
+    }
+    let n = match r.below(8) {
+        0 => 0,
+        1..=4 => 1,
+        5 | 6 => 2,
+        _ => 3,
+    };
+    let args: Vec<String> = (0..n).map(|_| gen_arg(r, depth, names)).collect();
+    format!("{}({})", name, args.join(", "))
+}
+
+fn gen_call_expr(r: &mut Rng, names: &[&str]) -> String {
+    let depth = r.below(3) as u32;
+    match r.below(8) {
+        0 => format!("xs[*].{}", gen_call(r, depth, names)),
+        1 => format!("[{}, {}]", gen_call(r, depth, names), gen_call(r, depth, names)),
+        2 => format!("o.{}", gen_call(r, depth, names)),
+        3 => format!("ys | {}", gen_call(r, depth, names)),
+        _ => gen_call(r, depth, names),
+    }
+}
+
+fn gen_history(seed: u64) -> Vec<Op> {
+    let mut r = Rng::new(seed);
+    let nrt = 1 + r.below(N_RT);
+    let nops = 5 + r.below(36);
+    // swarm: a subset of the name pool per history, so that collisions are frequent
+    let mut names: Vec<&str> = CALL_NAMES.to_vec();
+    r.shuffle(&mut names);
+    names.truncate(3 + r.below(5));
+    let w_reg = 4 + r.below(6);
+    let w_dereg = 1 + r.below(4);
+    let w_builtins = r.below(3);
+    let w_new = r.below(2);
+    let w_get = 1 + r.below(4);
+    let w_call = 6 + r.below(10);
+    let total = w_reg + w_dereg + w_builtins + w_new + w_get + w_call;
+    let fail_pct = [0, 20, 50][r.below(3)] as u32;
+    let mut next_id = 0u32;
+    let mut ops = vec![];
+    // generator-side view of what is registered where (only used to aim calls)
+    let mut have: Vec<BTreeSet<String>> = (0..N_RT).map(|_| BTreeSet::new()).collect();
+    if r.chance(1, 2) {
+        ops.push(Op::RegisterBuiltins { rt: 0 });
+        have[0].extend(BUILTINS.iter().map(|b| b.to_string()));
+    }
+    while ops.len() < nops {
+        let rt = r.below(nrt);
+        let mut x = r.below(total);
+        let any_name = |r: &mut Rng, names: &[&str]| -> String {
+            if r.chance(1, 8) {
+                (*r.pick(ODD_NAMES)).to_string()
+            } else if r.chance(1, 10) {
+                (*r.pick(BUILTINS)).to_string()
+            } else {
+                (*r.pick(names)).to_string()
+            }
+        };
+        if x < w_reg {
+            let sig = if r.chance(1, 2) { Some(gen_sig(&mut r)) } else { None };
+            let fail_on = if r.chance(fail_pct, 100) { Some(1 + r.below(3) as u32) } else { None };
+            let name = any_name(&mut r, &names);
+            have[rt].insert(name.clone());
+            ops.push(Op::Register {
+                rt,
+                name,
+                f: FnSpec { id: next_id, sig, fail_on },
+            });
+            next_id += 1;
+            continue;
+        }
+        x -= w_reg;
+        if x < w_dereg {
+            let name = if !have[rt].is_empty() && r.chance(2, 3) {
+                let v: Vec<&String> = have[rt].iter().collect();
+                v[r.below(v.len())].clone()
+            } else {
+                any_name(&mut r, &names)
+            };
+            have[rt].remove(&name);
+            ops.push(Op::Deregister { rt, name });
+            continue;
+        }
+        x -= w_dereg;
+        if x < w_builtins {
+            ops.push(Op::RegisterBuiltins { rt });
+            have[rt].extend(BUILTINS.iter().map(|b| b.to_string()));
+            continue;
+        }
+        x -= w_builtins;
+        if x < w_new {
+            ops.push(Op::NewRuntime { rt });
+            have[rt].clear();
+            continue;
+        }
+        x -= w_new;
+        if x < w_get {
+            ops.push(Op::Get {
+                rt,
+                name: any_name(&mut r, &names),
+            });
+            continue;
+        }
+        // aim most calls at names that are registered in this runtime right now
+        let live: Vec<&str> = have[rt]
+            .iter()
+            .map(|s| s.as_str())
+            .filter(|n| CALL_NAMES.contains(n))
+            .collect();
+        let expr = if !live.is_empty() && r.chance(4, 5) {
+            if r.chance(1, 4) {
+                let mut mixed = live.clone();
+                mixed.push(names[r.below(names.len())]);
+                gen_call_expr(&mut r, &mixed)
+            } else {
+                gen_call_expr(&mut r, &live)
+            }
+        } else {
+            gen_call_expr(&mut r, &names)
+        };
+        ops.push(Op::Call {
+            rt,
+            expr,
+            doc: (*r.pick(DOCS)).to_string(),
+        });
+    }
+    ops
+}
+
+// ------------------------------------------------------------------ executor
+
+#[derive(Default)]
+struct Stats {
+    c: BTreeMap<String, u64>,
+    states: BTreeSet<u64>,
+    transitions: BTreeSet<u64>,
+    shapes_nontrivial: BTreeSet<u64>,
+    shapes: BTreeSet<u64>,
+}
+impl Stats {
+    fn bump(&mut self, k: &str) {
+        *self.c.entry(k.to_string()).or_insert(0) += 1;
+    }
+}
+
+struct Viol {
+    invariant: &'static str,
+    op_index: usize,
+    detail: String,
+}
+
+#[derive(Default)]
+struct RunOut {
+    log_hash: u64,
+    shape: u64,
+    nontrivial: bool,
+    viol: Vec<Viol>,
+    log: Vec<String>,
+    calls: u32,
+}
+
+fn state_hash(models: &[ModelRt]) -> u64 {
+    let mut h = Hasher64::new();
+    for m in models {
+        h.str("|");
+        for (k, b) in &m.map {
+            h.str(k);
+            match b {
+                Binding::Builtin(_) => h.str("B"),
+                Binding::Custom { spec, .. } => h.str(if spec.sig.is_some() { "S" } else { "C" }),
+            };
+        }
+    }
+    h.finish()
+}
+
+/// Identify what a function object *is* by invoking it directly with a probe.
+/// Returns "F<id>" for a recording function, "builtin:<answer>" otherwise.
+fn identify(f: &dyn Function, rt: &Runtime, log: &Log, expect_sig: Option<&Sig>) -> String {
+    // choose probe args that satisfy the expected signature if there is one, so
+    // that a signed recording function is actually entered
+    let probe_for = |t: &SigT| -> Rcvar {
+        Rcvar::new(match t {
+            SigT::Any | SigT::Number | SigT::NumOrStr => Variable::Number(serde_json::Number::from(-3)),
+            SigT::String => Variable::String("p".into()),
+            SigT::Expref => Variable::Expref(Ast::Identity { offset: 0 }),
+            SigT::Array | SigT::ArrayNumber => Variable::Array(vec![]),
+            SigT::Object => Variable::Object(BTreeMap::new()),
+            SigT::Bool => Variable::Bool(true),
+            SigT::Null => Variable::Null,
+        })
+    };
+    let args: Vec<Rcvar> = match expect_sig {
+        Some(s) => s.inputs.iter().map(probe_for).collect(),
+        None => vec![Rcvar::new(Variable::Number(serde_json::Number::from(-3)))],
+    };
+    let mut ctx = Context::new("probe", rt);
+    let before = log.lock().unwrap().len();
+    let res = catch_unwind(AssertUnwindSafe(|| f.evaluate(&args, &mut ctx)));
+    let mut l = log.lock().unwrap();
+    if l.len() > before {
+        let id = l[before].id;
+        l.truncate(before);
+        return format!("F{}", id);
+    }
+    match res {
+        Ok(Ok(v)) => format!("builtin:{}", v),
+        Ok(Err(e)) => format!("builtin-err:{:?}", class_of(&e)),
+        Err(_) => "panic".to_string(),
+    }
+}
+
+/// What the model says `identify` should report for a binding.
+fn model_identity(b: &Binding) -> String {
+    match b {
+        Binding::Custom { spec, .. } => format!("F{}", spec.id),
+        Binding::Builtin(name) => {
+            // known answers of built-ins on the probe argument -3
+            match *name {
+                "abs" => "builtin:3.0".into(),
+                "ceil" | "floor" => "builtin:-3.0".into(),
+                "not_null" | "to_number" => "builtin:-3".into(),
+                "to_array" => "builtin:[-3]".into(),
+                "to_string" => "builtin:\"-3\"".into(),
+                "type" => "builtin:\"number\"".into(),
+                "avg" | "keys" | "length" | "max" | "min" | "merge" | "reverse" | "sort" | "sum" | "values" => {
+                    "builtin-err:InvalidType".into()
+                }
+                _ => "builtin-err:NotEnough".into(),
+            }
+        }
+    }
+}
+
+fn run_history(ops: &[Op], stats: &mut Stats, verbose: bool) -> RunOut {
+    let mut out = RunOut::default();
+    let log: Log = Arc::new(Mutex::new(Vec::new()));
+    let mut rts: Vec<Runtime> = (0..N_RT).map(|_| Runtime::new()).collect();
+    let mut models: Vec<ModelRt> = (0..N_RT).map(|_| ModelRt::default()).collect();
+    let mut lh = Hasher64::new();
+    let mut shape = Hasher64::new();
+    let mut reg_count: BTreeMap<(usize, String), u32> = BTreeMap::new();
+    let mut removed: BTreeSet<(usize, String)> = BTreeSet::new();
+    let mut prev_state = state_hash(&models);
+    stats.states.insert(prev_state);
+
+    macro_rules! viol {
+        ($inv:expr, $i:expr, $($arg:tt)*) => {
+            if out.viol.len() < 6 {
+                out.viol.push(Viol { invariant: $inv, op_index: $i, detail: format!($($arg)*) });
+            }
+        };
+    }
+
+    for (i, op) in ops.iter().enumerate() {
+        stats.bump(&format!("op.{}", op.kind()));
+        let line: String;
+        match op {
+            Op::Register { rt, name, f } => {
+                let key = (*rt, name.clone());
+                let n = reg_count.entry(key.clone()).or_insert(0);
+                *n += 1;
+                if *n >= 2 || removed.contains(&key) {
+                    out.nontrivial = true;
+                }
+                if let Some(Binding::Builtin(_)) = models[*rt].map.get(name) {
+                    stats.bump("probe.custom_shadows_builtin");
+                    out.nontrivial = true;
+                }
+                rts[*rt].register_function(name, make_fn(f, &log));
+                models[*rt].map.insert(
+                    name.clone(),
+                    Binding::Custom {
+                        spec: f.clone(),
+                        calls: 0,
+                    },
+                );
+                line = format!("register rt{} {:?} F{} sig={:?} fail_on={:?}", rt, name, f.id, f.sig, f.fail_on);
+                shape.str("r").u64(f.sig.is_some() as u64);
+            }
+            Op::Deregister { rt, name } => {
+                let got = rts[*rt].deregister_function(name);
+                let want = models[*rt].map.remove(name);
+                let got_id = got.as_ref().map(|b| {
+                    let sig = match &want {
+                        Some(Binding::Custom { spec, .. }) => spec.sig.clone(),
+                        _ => None,
+                    };
+                    identify(b.as_ref(), &rts[*rt], &log, sig.as_ref())
+                });
+                let want_id = want.as_ref().map(model_identity);
+                if got.is_some() != want.is_some() {
+                    viol!("registry-follows-history", i,
+                        "deregister({:?}) on runtime {} returned {} but the name was {} according to the operations so far",
+                        name, rt, if got.is_some() { "a function" } else { "None" },
+                        if want.is_some() { "registered" } else { "not registered" });
+                } else if got_id != want_id {
+                    viol!("registry-follows-history", i,
+                        "deregister({:?}) on runtime {} returned {:?} but the most recent registration of that name is {:?}",
+                        name, rt, got_id, want_id);
+                }
+                if want.is_some() {
+                    removed.insert((*rt, name.clone()));
+                } else {
+                    stats.bump("probe.deregister_missing");
+                }
+                line = format!("deregister rt{} {:?} -> {:?}", rt, name, got_id);
+                shape.str("d").u64(want.is_some() as u64);
+            }
+            Op::RegisterBuiltins { rt } => {
+                if models[*rt]
+                    .map
+                    .iter()
+                    .any(|(k, b)| BUILTINS.contains(&k.as_str()) && matches!(b, Binding::Custom { .. }))
+                {
+                    stats.bump("probe.builtins_over_custom_shadow");
+                    out.nontrivial = true;
+                }
+                rts[*rt].register_builtin_functions();
+                for b in BUILTINS {
+                    models[*rt].map.insert(b.to_string(), Binding::Builtin(b));
+                }
+                line = format!("register_builtins rt{}", rt);
+                shape.str("b");
+            }
+            Op::NewRuntime { rt } => {
+                rts[*rt] = Runtime::new();
+                models[*rt] = ModelRt::default();
+                reg_count.retain(|k, _| k.0 != *rt);
+                removed.retain(|k| k.0 != *rt);
+                line = format!("new_runtime rt{}", rt);
+                shape.str("n");
+            }
+            Op::Get { rt, name } => {
+                let want = models[*rt].map.get(name).cloned();
+                let got_id = rts[*rt].get_function(name).map(|f| {
+                    let sig = match &want {
+                        Some(Binding::Custom { spec, .. }) => spec.sig.clone(),
+                        _ => None,
+                    };
+                    identify(f, &rts[*rt], &log, sig.as_ref())
+                });
+                // a direct probe invocation counts as an invocation of that instance
+                if let (Some(_), Some(Binding::Custom { calls, .. })) = (&got_id, models[*rt].map.get_mut(name)) {
+                    *calls += 1;
+                }
+                let want_id = want.as_ref().map(model_identity);
+                if got_id.is_some() != want_id.is_some() {
+                    viol!("registry-follows-history", i,
+                        "get_function({:?}) on runtime {} is {} but the name is {} according to the operations so far",
+                        name, rt, if got_id.is_some() { "Some" } else { "None" },
+                        if want_id.is_some() { "registered" } else { "not registered" });
+                } else if got_id != want_id {
+                    viol!("registry-follows-history", i,
+                        "get_function({:?}) on runtime {} answers as {:?} but the most recent registration is {:?}",
+                        name, rt, got_id, want_id);
+                }
+                line = format!("get rt{} {:?} -> {:?}", rt, name, got_id);
+                shape.str("g").u64(want.is_some() as u64);
+            }
+            Op::Call { rt, expr, doc } => {
+                out.calls += 1;
+                let data = match Variable::from_json(doc) {
+                    Ok(v) => Rcvar::new(v),
+                    Err(_) => Rcvar::new(Variable::Null),
+                };
+                let ast = match jmespath::parse(expr) {
+                    Ok(a) => a,
+                    Err(_) => {
+                        // generator slip: not a C15 matter
+                        stats.bump("call.unparsable");
+                        continue;
+                    }
+                };
+                // --- real
+                log.lock().unwrap().clear();
+                let real = {
+                    let rtr = &rts[*rt];
+                    catch_unwind(AssertUnwindSafe(|| {
+                        let e = rtr.compile(expr)?;
+                        e.search(data.clone())
+                    }))
+                };
+                let mut real_log: Vec<Rec> = std::mem::take(&mut *log.lock().unwrap());
+                // --- model
+                let mut unknown = BTreeSet::new();
+                unknown_names(&ast, &models[*rt], &mut unknown);
+                let mut model_log = vec![];
+                let model = model_eval(&mut models[*rt], &ast, &data, &mut model_log);
+                let real_s = match &real {
+                    Ok(Ok(v)) => format!("Ok({:?})", v),
+                    Ok(Err(e)) => format!("Err({:?})", class_of(e)),
+                    Err(_) => "Panic".to_string(),
+                };
+                let model_s = match &model {
+                    Ok(v) => format!("Ok({:?})", v),
+                    Err(c) => format!("Err({:?})", c),
+                };
+                let supported = !matches!(model, Err(ErrClass::Unsupported(_)));
+                if !supported {
+                    stats.bump("call.outside_model");
+                    // the model's per-instance counters may now be off: resynchronise is
+                    // impossible, so stop judging this history (narrow, deliberate)
+                    line = format!("call rt{} {:?} outside the reference model: {}", rt, expr, model_s);
+                    lh.u64(i as u64).str(&line);
+                    if verbose {
+                        out.log.push(format!("{:3} {}", i, line));
+                    }
+                    break;
+                }
+                let mut agree = real_s == model_s;
+                if !agree {
+                    // several unknown names in one expression: the statement does not fix which is met first
+                    if let (Ok(Err(e)), Err(ErrClass::Unknown(_))) = (&real, &model) {
+                        if let ErrClass::Unknown(n) = class_of(e) {
+                            if unknown.contains(&n) && unknown.len() > 1 {
+                                agree = true;
+                                stats.bump("call.unknown_any_of_several");
+                            }
+                        }
+                    }
+                }
+                if !agree {
+                    viol!("call-follows-registry", i,
+                        "{:?} on {} through runtime {}: library gave {} ; the registry history implies {} (model bindings: {})",
+                        expr, doc, rt, real_s, model_s, bindings(&models[*rt], &ast));
+                } else {
+                    real_log.sort();
+                    model_log.sort();
+                    if real_log != model_log {
+                        viol!("arguments-evaluated-in-source-order", i,
+                            "{:?} on {} through runtime {}: recording functions saw {:?} ; the registry history and source-order evaluation imply {:?}",
+                            expr, doc, rt, real_log, model_log);
+                    }
+                }
+                match &model {
+                    Ok(_) => stats.bump("call.ok"),
+                    Err(ErrClass::Unknown(_)) => stats.bump("call.unknown_function"),
+                    Err(ErrClass::Injected(_)) => stats.bump("fault.fired.injected_function_error"),
+                    Err(ErrClass::InvalidType) | Err(ErrClass::NotEnough) | Err(ErrClass::TooMany) => {
+                        stats.bump("call.signature_or_builtin_reject")
+                    }
+                    _ => {}
+                }
+                if real_log.iter().any(|r| r.args.iter().any(|a| a.starts_with("Expref("))) {
+                    stats.bump("probe.expref_argument_delivered_unevaluated");
+                }
+                if !removed.is_empty() && unknown.iter().any(|n| removed.contains(&(*rt, n.clone()))) {
+                    stats.bump("probe.call_after_remove");
+                }
+                line = format!("call rt{} {:?} doc={} -> {} log={:?}", rt, expr, doc, real_s, real_log);
+                shape.str("c").str(match &model {
+                    Ok(_) => "ok",
+                    Err(ErrClass::Unknown(_)) => "unk",
+                    Err(ErrClass::Injected(_)) => "inj",
+                    Err(_) => "rej",
+                });
+            }
+        }
+        let st = state_hash(&models);
+        stats.states.insert(st);
+        let mut th = Hasher64::new();
+        th.u64(prev_state).str(op.kind()).u64(st);
+        stats.transitions.insert(th.finish());
+        prev_state = st;
+        lh.u64(i as u64).str(&line);
+        if verbose {
+            out.log.push(format!("{:3} {}", i, line));
+        }
+        // cross-invariant after every step: presence of every pool name
+        for rt in 0..N_RT {
+            for name in CALL_NAMES.iter().chain(ODD_NAMES.iter()) {
+                let real = rts[rt].get_function(name).is_some();
+                let want = models[rt].map.contains_key(*name);
+                if real != want {
+                    viol!("registry-follows-history", i,
+                        "after op {} ({}): get_function({:?}) on runtime {} is {} but the operations so far leave it {}",
+                        i, op.kind(), name, rt, if real { "Some" } else { "None" },
+                        if want { "registered" } else { "unregistered" });
+                }
+            }
+        }
+    }
+    out.log_hash = lh.finish();
+    out.shape = shape.finish();
+    stats.shapes.insert(out.shape);
+    if out.nontrivial {
+        stats.shapes_nontrivial.insert(out.shape);
+    }
+    out
+}
+
+fn bindings(m: &ModelRt, ast: &Ast) -> String {
+    let mut names = BTreeSet::new();
+    fn walk(n: &Ast, out: &mut BTreeSet<String>) {
+        match n {
+            Ast::Function { name, args, .. } => {
+                out.insert(name.clone());
+                for a in args {
+                    walk(a, out);
+                }
+            }
+            Ast::Subexpr { lhs, rhs, .. } | Ast::Projection { lhs, rhs, .. } => {
+                walk(lhs, out);
+                walk(rhs, out);
+            }
+            Ast::MultiList { elements, .. } => {
+                for e in elements {
+                    walk(e, out);
+                }
+            }
+            Ast::Expref { ast, .. } => walk(ast, out),
+            _ => {}
+        }
+    }
+    walk(ast, &mut names);
+    names
+        .iter()
+        .map(|n| {
+            format!(
+                "{}={}",
+                n,
+                match m.map.get(n) {
+                    None => "unregistered".to_string(),
+                    Some(Binding::Builtin(_)) => "builtin".to_string(),
+                    Some(Binding::Custom { spec, calls }) => format!(
+                        "F{}{}(calls so far {})",
+                        spec.id,
+                        if spec.sig.is_some() { "[signed]" } else { "" },
+                        calls
+                    ),
+                }
+            )
+        })
+        .collect::<Vec<_>>()
+        .join(", ")
+}
+
+// ------------------------------------------------------------------ CLI
+
+fn arg<'a>(args: &'a [String], name: &str) -> Option<&'a str> {
+    args.iter()
+        .position(|a| a == name)
+        .and_then(|i| args.get(i + 1))
+        .map(|s| s.as_str())
+}
+
+fn die(msg: &str) -> ! {
+    eprintln!("regsim: {}", msg);
+    std::process::exit(2)
+}
+
+fn hist_json(seed: u64, index: u64, ops: &[Op]) -> Value {
+    json!({"property":"C15","seed":seed,"index":index,"ops":ops.iter().map(op_to_json).collect::<Vec<_>>()})
+}
+
+fn main() {
+    std::panic::set_hook(Box::new(|_| {}));
+    let args: Vec<String> = std::env::args().collect();
+    match args.get(1).map(|s| s.as_str()).unwrap_or("") {
+        "gen" => {
+            let seed: u64 = arg(&args, "--seed").and_then(|s| s.parse().ok()).unwrap_or(simcore::DEFAULT_SEED);
+            let index: u64 = arg(&args, "--index").and_then(|s| s.parse().ok()).unwrap_or(0);
+            let ops = gen_history(mix(seed, index));
+            println!("{}", serde_json::to_string_pretty(&hist_json(seed, index, &ops)).unwrap());
+        }
+        "run" => {
+            let seed: u64 = arg(&args, "--seed").and_then(|s| s.parse().ok()).unwrap_or(simcore::DEFAULT_SEED);
+            let start: u64 = arg(&args, "--start").and_then(|s| s.parse().ok()).unwrap_or(0);
+            let count: u64 = arg(&args, "--count").and_then(|s| s.parse().ok()).unwrap_or(100);
+            let samples: u64 = arg(&args, "--samples").and_then(|s| s.parse().ok()).unwrap_or(0);
+            let out_path = arg(&args, "--out").unwrap_or_else(|| die("--out required"));
+            let mut out = std::io::BufWriter::new(
+                std::fs::File::create(out_path).unwrap_or_else(|e| die(&format!("cannot create {}: {}", out_path, e))),
+            );
+            let mut stats = Stats::default();
+            writeln!(out, "SEED {} start={} count={}", seed, start, count).unwrap();
+            let mut nviol = 0;
+            for idx in start..start + count {
+                let ops = gen_history(mix(seed, idx));
+                let o = run_history(&ops, &mut stats, false);
+                writeln!(out, "H {} {} {} {:016x} {:016x}", idx, ops.len(), o.calls, o.shape, o.log_hash).unwrap();
+                for v in &o.viol {
+                    nviol += 1;
+                    writeln!(out, "V {} {} {} {}", idx, v.invariant, v.op_index, serde_json::to_string(&v.detail).unwrap()).unwrap();
+                }
+                if idx < start + samples {
+                    writeln!(out, "SAMPLE {}", serde_json::to_string(&hist_json(seed, idx, &ops)).unwrap()).unwrap();
+                }
+            }
+            let hexes = |s: &BTreeSet<u64>| -> Vec<String> { s.iter().map(|x| format!("{:016x}", x)).collect() };
+            writeln!(
+                out,
+                "STATS {}",
+                serde_json::to_string(&json!({
+                    "counters": stats.c, "states": hexes(&stats.states), "transitions": hexes(&stats.transitions),
+                    "shapes": hexes(&stats.shapes), "shapes_nontrivial": hexes(&stats.shapes_nontrivial)
+                }))
+                .unwrap()
+            )
+            .unwrap();
+            writeln!(out, "END violations={}", nviol).unwrap();
+            out.flush().unwrap();
+        }
+        "exec" => {
+            let file = arg(&args, "--file").unwrap_or_else(|| die("--file required"));
+            let verbose = args.iter().any(|a| a == "--verbose");
+            let text = std::fs::read_to_string(file).unwrap_or_else(|e| die(&format!("cannot read {}: {}", file, e)));
+            let v: Value = serde_json::from_str(&text).unwrap_or_else(|e| die(&format!("bad JSON: {}", e)));
+            let ops: Vec<Op> = v
+                .get("ops")
+                .and_then(|o| o.as_array())
+                .unwrap_or_else(|| die("no ops"))
+                .iter()
+                .map(|o| op_from_json(o).unwrap_or_else(|e| die(&e)))
+                .collect();
+            let idx = v.get("index").and_then(|x| x.as_u64()).unwrap_or(0);
+            let mut stats = Stats::default();
+            let o = run_history(&ops, &mut stats, verbose);
+            for l in &o.log {
+                println!("L {}", l);
+            }
+            println!("H {} {} {} {:016x} {:016x}", idx, ops.len(), o.calls, o.shape, o.log_hash);
+            for vi in &o.viol {
+                println!("V {} {} {} {}", idx, vi.invariant, vi.op_index, serde_json::to_string(&vi.detail).unwrap());
+            }
+            println!("END violations={}", o.viol.len());
+        }
+        _ => die("usage: regsim run|exec|gen ..."),
+    }
+}
